@@ -1116,6 +1116,51 @@ func computePaymentStatusFromDB(ctx context.Context, cfg *sqldb.QueryConfig,
 	return status, nil
 }
 
+// checkAttemptResolvable makes sure that the HTLC attempt with the given ID
+// belongs to the given payment and has neither been settled nor failed yet.
+// The resolution tables are keyed by the attempt index alone, so without this
+// check a resolution could be recorded for an attempt of a different payment
+// than the one whose status was validated.
+func checkAttemptResolvable(ctx context.Context, db SQLQueries,
+	paymentID int64, attemptID uint64) error {
+
+	attempts, err := db.FetchHtlcAttemptsForPayments(
+		ctx, []int64{paymentID},
+	)
+	if err != nil {
+		return fmt.Errorf("failed to fetch HTLC attempts: %w", err)
+	}
+
+	for _, attempt := range attempts {
+		if attempt.AttemptIndex != int64(attemptID) {
+			continue
+		}
+
+		// A missing resolution means the attempt is still in flight.
+		if !attempt.ResolutionType.Valid {
+			return nil
+		}
+
+		resType := HTLCAttemptResolutionType(
+			attempt.ResolutionType.Int32,
+		)
+		switch resType {
+		case HTLCAttemptResolutionSettled:
+			return ErrAttemptAlreadySettled
+
+		case HTLCAttemptResolutionFailed:
+			return ErrAttemptAlreadyFailed
+
+		default:
+			return fmt.Errorf("unknown resolution type: %v",
+				attempt.ResolutionType.Int32)
+		}
+	}
+
+	return fmt.Errorf("%w: HTLC with ID %v", ErrAttemptNotRegistered,
+		attemptID)
+}
+
 // DeletePayment removes a payment or its failed HTLC attempts from the
 // database based on the failedAttemptsOnly flag.
 //
@@ -1591,6 +1636,15 @@ func (s *SQLStore) SettleAttempt(ctx context.Context, paymentHash lntypes.Hash,
 			return fmt.Errorf("payment is not updatable: %w", err)
 		}
 
+		// Make sure the attempt belongs to this payment and is not
+		// resolved yet.
+		err = checkAttemptResolvable(
+			ctx, db, dbPayment.GetPayment().ID, attemptID,
+		)
+		if err != nil {
+			return err
+		}
+
 		err = db.SettleAttempt(ctx, sqlc.SettleAttemptParams{
 			AttemptIndex:   int64(attemptID),
 			ResolutionTime: settleInfo.SettleTime.UTC(),
@@ -1665,6 +1719,15 @@ func (s *SQLStore) FailAttempt(ctx context.Context, paymentHash lntypes.Hash,
 		// attempt.
 		if err := paymentStatus.updatable(); err != nil {
 			return fmt.Errorf("payment is not updatable: %w", err)
+		}
+
+		// Make sure the attempt belongs to this payment and is not
+		// resolved yet.
+		err = checkAttemptResolvable(
+			ctx, db, dbPayment.GetPayment().ID, attemptID,
+		)
+		if err != nil {
+			return err
 		}
 
 		var failureMsg bytes.Buffer
